@@ -482,6 +482,9 @@ def _real_call(ped, m, f, err, lam, fn_name, args_fn, bad=None, rng=None):
             bad.append(s)
         return math.log(float(m.get(lname(s, genotype_alleles), 1.0)))
 
+    parents = rnp.array(ped["parents"])
+    children = rm.sample_children_matrix(parents)  # jitted helpers are compiled before np is shimmed
+    rm.parental_pair_markov_blankets(parents, children)
     rm.log_likelihood_alleles_cached = stub
     real_np = rm.np
     if rng is not None:
@@ -492,8 +495,6 @@ def _real_call(ped, m, f, err, lam, fn_name, args_fn, bad=None, rng=None):
         s_.random = rng
         rm.np = s_
     try:
-        parents = rnp.array(ped["parents"])
-        children = rm.sample_children_matrix(parents)
         scr = [rnp.zeros(mp, dtype=rnp.int64) for _ in range(7)] + [rnp.zeros(mp)]
         fn = getattr(rm, fn_name)
         return args_fn(fn.py_func, rnp.array(ped["ploidy"]), parents, children, rnp.array(ped["tau"]), lam, err, reads, counts,
@@ -576,7 +577,11 @@ def replay(v):
                     return 2.0
 
             def call(fn, ploidy, parents, children, tau, lam_, err_, reads, counts, haps, logf, scr, rm):
-                pairs, blankets = rm.parental_pair_markov_blankets(parents, children)
+                real_np_, rm.np = rm.np, rnp
+                try:
+                    pairs, blankets = rm.parental_pair_markov_blankets(parents, children)
+                finally:
+                    rm.np = real_np_
                 row = [i for i in range(len(pairs)) if tuple(pairs[i]) == (p, q)][0]
                 G = _Gnum(ped, state_)
                 A, acc = fn(p, q, blankets[row], G, ploidy, parents, tau, lam_, err_, reads, counts, haps, logf, None, *scr)
